@@ -16,7 +16,7 @@ func init() { RegisterProp("C14", runC14) }
 
 func isExcludedField(f reflect.StructField) bool {
 	if f.Anonymous && f.Type.Kind() == reflect.Struct {
-		return false
+		return f.Tag.Get("parquet") == "-"
 	}
 	if !f.IsExported() {
 		return true
@@ -69,6 +69,8 @@ func FillExcluded(v reflect.Value) int {
 			case reflect.Struct:
 				if dst.Type() == reflect.TypeOf(time.Time{}) {
 					dst.Set(reflect.ValueOf(time.Unix(1234567, 0)))
+				} else {
+					fillJunk(dst)
 				}
 			}
 			n++
@@ -91,6 +93,28 @@ func FillExcluded(v reflect.Value) int {
 		}
 	}
 	return n
+}
+
+// fillJunk stores non-zero values in every field of a struct value (used for
+// excluded fields of struct type).
+func fillJunk(v reflect.Value) {
+	for i := 0; i < v.NumField(); i++ {
+		f := settable(v.Field(i))
+		switch f.Kind() {
+		case reflect.Int32, reflect.Int64, reflect.Int:
+			f.SetInt(-78)
+		case reflect.Uint32, reflect.Uint64:
+			f.SetUint(78)
+		case reflect.Float32, reflect.Float64:
+			f.SetFloat(7.8)
+		case reflect.String:
+			f.SetString("EXCLUDED-JUNK-INNER")
+		case reflect.Bool:
+			f.SetBool(true)
+		case reflect.Struct:
+			fillJunk(f)
+		}
+	}
 }
 
 // NonZeroExcluded returns the path of the first excluded field that is not
